@@ -1109,6 +1109,27 @@ fn blocked_case(rep: &mut Report, prop: &str, args: &Args, cs: u64) {
         adopt_zombies();
         return;
     }
+    // every third case: another thread is inside flush() of the queuing sink, and the wrapped sink's flush is blocked
+    // as well - "the wrapped sink is blocked indefinitely" covers both of its methods, and emit waits for neither
+    let flusher = if cs % 3 == 0 {
+        sh.st.lock().unwrap_or_else(|e| e.into_inner()).flush_blocks = true;
+        let h = q.clone();
+        let j = std::thread::spawn(move || {
+            let _reg = procmon::Registration::new();
+            let _ = panics::guard(|| cadence::MetricSink::flush(&h));
+            drop(h);
+        });
+        let t0 = std::time::Instant::now();
+        while sh.st.lock().unwrap_or_else(|e| e.into_inner()).in_flush == 0 && t0.elapsed() < Duration::from_secs(5) {
+            std::thread::yield_now();
+        }
+        if sh.st.lock().unwrap_or_else(|e| e.into_inner()).in_flush > 0 {
+            rep.obs("blocked_sink_races_with_a_caller_stuck_in_the_wrapped_sinks_flush", 1);
+        }
+        Some(j)
+    } else {
+        None
+    };
     let barrier = Arc::new(Barrier::new(producers));
     let done = Arc::new(AtomicU64::new(0));
     let oks = Arc::new(AtomicU64::new(0));
@@ -1180,6 +1201,9 @@ fn blocked_case(rep: &mut Report, prop: &str, args: &Args, cs: u64) {
     // release everything so that the threads can be joined
     sh.open_all();
     for j in joins {
+        let _ = j.join();
+    }
+    if let Some(j) = flusher {
         let _ = j.join();
     }
     rep.obs("blocked_sink_races", 1);
